@@ -148,3 +148,34 @@ Example C02_nonvacuous :
   /\ is_ok (structure w_env (mk_cfg true true false false) 6 (TList (TClass 1)) (VList [VDict [(VAtom PStr 2, VAtom PStr 7)]])) = false
   /\ is_ok (structure w_env (mk_cfg false false false false) 6 (TList (TClass 1)) (VList [VDict [(VAtom PStr 2, VAtom PStr 7)]])) = false.
 Proof. vm_compute. repeat split. Qed.
+
+(* ---- TypedDicts (gen/typeddicts.py), no overrides ----
+   For EVERY TypedDict definition, handlers and dict payload, whatever either template accepts: every
+   required key is present, and every declared key that is present holds the result of its handler applied
+   to the payload's value (so conformance of the parts carries over); every other key holds the payload's
+   own value.  The last clause is where the property fails for TypedDicts: undeclared keys are passed
+   through (finding F4, open; C10_typeddict_unknown_keys_change_outcome_refuted has the witness). *)
+From V.Model Require Import TdTemplates.
+From V.Proofs Require Import TdProofs.
+Theorem C02_typeddict_result :
+  forall (V : Type) (opt : tdopts) (hs : N -> V -> result V) (d : list (N * V)) (fs : list tdfield) r,
+    NoDup (keys d) ->
+    (to_opt (td_detailed V opt (fun _ => neutral) hs fs (dict_obj d)) = Some (Some r) \/
+     to_opt (td_fast V opt (fun _ => neutral) hs fs (dict_obj d)) = Some (Some r)) ->
+    keys r = keys d /\
+    (forall f, In f fs -> d_required f = true -> In (d_name f) (keys r)) /\
+    (forall k v, assoc d k = Some v ->
+       if mem_N k (map d_name fs) then exists w, hs k v = Ok w /\ assoc r k = Some w
+       else assoc r k = Some v).
+Proof.
+  intros V opt hs d fs r Hnd H.
+  rewrite (td_detailed_refines_spec V opt hs d Hnd fs), (td_fast_refines_spec V opt hs d Hnd fs) in H.
+  assert (Hs : td_spec V opt hs d fs = Some r).
+  { destruct (td_spec V opt hs d fs) as [x|]; cbn in H; destruct H as [H|H]; congruence. }
+  split; [exact (td_spec_keys V opt hs d fs r Hs)|]. split.
+  - intros f Hin Hr. exact (td_spec_required V opt hs d fs r f Hs Hin Hr).
+  - intros k v Ha. destruct (td_spec_values V opt hs d fs r k v Hs Ha) as [H1 H2].
+    destruct (mem_N k (map d_name fs)) eqn:Hm; [|exact H1].
+    specialize (H2 eq_refl). unfold nv in H1. destruct (hs k v) as [w| |]; try discriminate. now exists w.
+Qed.
+Print Assumptions C02_typeddict_result.
